@@ -322,6 +322,9 @@ func scripts(k cfgT, ks consts) map[string][]opT {
 	for _, d := range []int{ttl - 1, ttl, ttl + 1} {
 		m[fmt.Sprintf("cache-expiry@%+d", d-ttl)] = append([]opT{rec(plan{Status: 3}), tick(d), rec(okPlan)}, tail...)
 	}
+	// a stale read older than the launch cache TTL plus two faults: the stored object ends with Registered=True, Launched=Unknown
+	m["order-after-cache-expiry"] = []opT{rec(plan{Status: 3}), op("Sync"), rec(okPlan), opb("NodeAppear", true), tick(ttl + 1),
+		rec(plan{Create: 4, DelLive1: 3}), op("Sync"), rec(plan{Create: 4}), op("Sync")}
 	m["stale-after-launch"] = append([]opT{rec(okPlan), rec(okPlan), opb("NodeAppear", true), rec(okPlan), rec(okPlan), op("Sync"), rec(okPlan)}, tail...)
 	return m
 }
@@ -477,7 +480,7 @@ func main() {
 	ks := readConsts()
 	ks.TTL = measureTTL()
 	var hs []hist
-	nRandom, maxFaults, permCfgs := 1100, 1, 2
+	nRandom, maxFaults, permCfgs := 800, 1, 2
 	if c.Thorough() {
 		nRandom, maxFaults, permCfgs = 6000, 2, 4
 	}
@@ -529,12 +532,26 @@ func main() {
 			}
 		}
 	}
+	// 3b. stale status merges: a snapshot is taken at one of six lifecycle stages, the node changes, a reconcile on the
+	//     snapshot writes, the node changes again, a second reconcile computed from the SAME (now stale) snapshot writes
+	//     after it; then the informer catches up.
+	staleAll := staleMerges()
+	nStale := 450
+	if c.Thorough() {
+		nStale = 4000
+	}
+	rs := c.Rand.Fork()
+	for i := 0; i < nStale && i < len(staleAll); i++ {
+		j := i + rs.Intn(len(staleAll)-i)
+		staleAll[i], staleAll[j] = staleAll[j], staleAll[i]
+		hs = append(hs, staleAll[i])
+	}
 	// 4. random histories
 	for i := 0; i < nRandom; i++ {
 		hs = append(hs, randomHist(c.Rand.Fork(), ks, maxFaults))
 	}
 	skipped := runAll(c, ks, hs)
-	c.Meta.Rule = fmt.Sprintf("histories of the real lifecycle.Controller.Reconcile: every scripted path (happy, both liveness timeouts at -1/0/+1 s, capacity errors, duplicate node, termination, lost status write with retry/restart/cache expiry at -1/0/+1 s) x a fault at each individual API write / provider call of each reconcile (kept only when the call was reached; %d unreachable combinations skipped) x informer fresh/stale; all 24 orders of node appearance/readiness/taint removal/resource report; %d random histories with up to %d faulty reconciles. non-trivial = at least one Reconcile call was made; distinct by configuration and op list",
+	c.Meta.Rule = fmt.Sprintf("histories of the real lifecycle.Controller.Reconcile: every scripted path (happy, both liveness timeouts at -1/0/+1 s, capacity errors, duplicate node, termination, lost status write with retry/restart/cache expiry at -1/0/+1 s) x a fault at each individual API write / provider call of each reconcile (kept only when the call was reached; %d unreachable combinations skipped) x informer fresh/stale; all 24 orders of node appearance/readiness/taint removal/resource report; stale status merges (7 lifecycle stages x 13 node events x 4 plans x 13 node events x 2 plans, two reconciles computed from the same snapshot writing one after the other, sampled); %d random histories with up to %d faulty reconciles. non-trivial = at least one Reconcile call was made; distinct by configuration and op list",
 		skipped, nRandom, maxFaults)
 	c.Meta.Exhaustive = false
 	c.Meta.Corr = []string{
@@ -549,7 +566,7 @@ func main() {
 	c.Meta.Extra = map[string]interface{}{
 		"constants": map[string]int64{"launch_cache_ttl_s": ks.TTL, "launch_timeout_s": ks.LT, "registration_timeout_s": ks.RT},
 		"assumptions": []string{
-			"create_at_most_once / conditions_ordered: no process restart in the history and the launch cache entry is within its TTL at every reconcile (no_expiry); sufficient: reconciles on fresh reads at most g seconds apart with g + 1 <= TTL",
+			"create_at_most_once: no process restart in the history and the launch cache entry is within its TTL whenever a reconcile consults it (no_expiry); conditions_ordered: no_expiry only; syntactic sufficient condition (theorem no_expiry_if_paced): fresh reads and reconciles at most g seconds apart with g + 1 <= TTL",
 			"the API server's optimistic locking and the informer are not modelled beyond: a write has one of four outcomes, the cached object is a past snapshot of the stored one (Sync)",
 			"go-cache expiry is replayed on the fake clock by the harness (entry dropped when fake now > stored-at + TTL)",
 		},
@@ -566,6 +583,50 @@ func faultScripts(k cfgT, ks consts, thorough bool) [][]opT {
 	var out [][]opT
 	for _, n := range []string{"happy", "launch-timeout@+0", "registration-timeout@+0", "both-timeouts", "capacity", "terminate", "duplicate-node"} {
 		out = append(out, m[n])
+	}
+	return out
+}
+
+// staleMerges enumerates stage x node event x plan x node event x plan.
+func staleMerges() []hist {
+	full := cfgT{Managed: true, Startup: true, Ext: true, Hook: true, Pool: true}
+	plain := cfgT{Managed: true, Ext: true}
+	type stage struct {
+		k   cfgT
+		ops []opT
+	}
+	stages := []stage{
+		{plain, []opT{rec(plan{Create: 4})}},     // finalizer, launch failed
+		{plain, []opT{rec(okPlan)}},              // launched, node not found
+		{plain, []opT{rec(plan{ListReg: true})}}, // launched, Registered still awaiting
+		{full, []opT{rec(okPlan), op("Sync"), opb("NodeAppear", true), rec(plan{Hook: 1, HookD: 30})}},    // hook pending
+		{plain, []opT{rec(okPlan), op("Sync"), opb("NodeAppear", true), rec(okPlan)}},                     // registered, not ready
+		{full, []opT{rec(okPlan), op("Sync"), opb("NodeAppear", true), opb("NReady", true), rec(okPlan)}}, // registered, startup taint
+		{plain, happy(plain)}, // initialized
+	}
+	events := []*opT{nil, {Kind: "NodeAppear", B: true}, {Kind: "NodeAppear"}, {Kind: "NReady", B: true}, {Kind: "NReady"}, {Kind: "NStartupOff"},
+		{Kind: "NExt", B: true}, {Kind: "NExt"}, {Kind: "NEph", B: true}, {Kind: "DupAppear"}, {Kind: "DupVanish"}, {Kind: "NodeVanish"}, {Kind: "EnvDelete"}}
+	plans := []plan{okPlan, {Status: 3}, {Create: 4}, {NPatchReg: 1}}
+	var out []hist
+	for _, st := range stages {
+		for _, e1 := range events {
+			for _, a := range plans {
+				for _, e2 := range events {
+					for _, b := range plans[:2] {
+						ops := append(append([]opT{}, st.ops...), op("Sync"))
+						if e1 != nil {
+							ops = append(ops, *e1)
+						}
+						ops = append(ops, rec(a))
+						if e2 != nil {
+							ops = append(ops, *e2)
+						}
+						ops = append(ops, rec(b), op("Sync"), rec(okPlan), op("Sync"))
+						out = append(out, hist{K: st.k, Ops: ops, Tag: "stale-merge"})
+					}
+				}
+			}
+		}
 	}
 	return out
 }
